@@ -12,7 +12,8 @@ Proof by induction on the length of the chain, discharged here from the real sou
            `AddExpression.evaluate` (BinaryExpression.evaluate -> AddExpression.operate, both run
            from the current source, nothing under contract except the operands' evaluate = the
            hypothesis) returns hv + (k + o), raises nothing, and evaluates each operand exactly once
-           with the caller's context - so k' = k + o, d' = d and defined(o).
+           with the caller's context - so k' = k + o, d' = d and defined(o); with an undefined (NaN) operand on the other side the result is
+           undefined, never a number.
 The arithmetic step is the solver's; what the source contributes is that evaluate of an addition
 is the sum of its operands' values, in either operand position.
 """
@@ -25,7 +26,7 @@ import z3
 from pyvc import externals
 from pyvc.explore import explore, prove
 from pyvc.interp import Interp, PathState
-from pyvc.values import Num, OutOfSubset, PyRaise, zreal
+from pyvc.values import NAN, Num, OutOfSubset, PyRaise, zreal
 
 from .c05 import _sym_number
 
@@ -59,10 +60,11 @@ def step_path(I: Interp, ps: PathState) -> Dict[str, Any]:
     hv = _sym_number(ps, "hole")
     k = _sym_number(ps, "k")
     o = _sym_number(ps, "o")
+    undefined_other = ps.choose(2, "other-operand-undefined") == 1  # d' = d and defined(o): an undefined operand makes the top undefined
     # induction hypothesis: the old top evaluates to hole + k (some number, int or float)
     tv = _sym_number(ps, "topval")
     ps.assume(zreal(tv) == zreal(hv) + zreal(k))
-    results = {id(top): tv, id(oth): o}
+    results = {id(top): tv, id(oth): (NAN if undefined_other else o)}
     calls = []
 
     def c_eval(I2, args, kw, fv):
@@ -83,7 +85,9 @@ def step_path(I: Interp, ps: PathState) -> Dict[str, Any]:
     ob("defined-operands-never-raise", raised is None, f"raised {raised.exc.clsname} at {raised.site}" if raised else "")
     ob("each-operand-evaluated-once-with-the-context",
        sorted(id(c) for c, _ in calls) == sorted([id(top), id(oth)]) and all(x is ctx for _, x in calls), str(calls))
-    if raised is None:
+    if raised is None and undefined_other:
+        ob("undefined-operand-gives-undefined-top", ret is NAN, f"returned {ret!r}")
+    elif raised is None:
         if isinstance(ret, Num):
             ob("value-is-hole-plus-(k+o)", True, goal=(zreal(ret) == zreal(hv) + (zreal(k) + zreal(o))))
         else:
